@@ -45,12 +45,11 @@ Record QInv (c : qcfg) (s : qstate) : Prop := mkQInv {
   i_senderr : forall x, q_senderr_chan s = Some (SESend x) \/ q_result s = Some (RSendErr x) ->
               q_fail s = Some x;
   i_cause : forall x, q_fail s = Some x ->
-            (x = CClosed -> q_closed s = true) /\ (x = CBlocked -> qc_blocked c = true) /\
-            (q_closed s = false -> qc_blocked c = true -> x = CBlocked);
+            (x = CClosed -> q_closed s = true) /\ (x = CBlocked -> q_blocked s = true);
   i_ret_unreg : q_caller s = CReturned -> q_registered s = false
 }.
 
-Lemma inv_init c c0 b0 : QInv c (q_init c0 b0).
+Lemma inv_init c c0 b0 k0 : QInv c (q_init c0 b0 k0).
 Proof.
   constructor; simpl; unfold pre_select, post_cancel; intros;
     repeat split; intros; try tauto; try congruence; try lia; try discriminate;
@@ -92,7 +91,7 @@ Ltac fin :=
 Theorem inv_step c s l : QInv c s -> enabled c s l = true -> QInv c (step c s l).
 Proof.
   intros I En.
-  destruct s as [ca se ha rg rc sc cx cn cl ns nw nd fl pp rs bu ra].
+  destruct s as [ca se ha rg rc sc cx cn cl ns nw nd fl pp rs bu ra bk].
   destruct I as [Isends Istart Iidle Idelays Iwrites Iseldone Ichandone Iresult Icancel Ijoined Ireg
                    Ipopped Irchan Irreply Irctx Icctx Itimeout Isenderr Icause Iret].
   simpl in *.
@@ -152,7 +151,7 @@ Proof.
     + split; [reflexivity|]. destruct (wrote c0); lia.
     + intros x [E|E]; [injection E as ->; reflexivity|].
       specialize (Isenderr x (or_intror E)). discriminate.
-    + intros x E. injection E as ->. destruct cl; [|destruct (qc_blocked c)]; destruct x; simpl in *;
+    + intros x E. injection E as ->. destruct cl; [|destruct bk]; destruct x; simpl in *;
         try discriminate; repeat split; intros; try congruence.
   - (* EReplyArrives *)
     destruct (Ireg eq_refl) as (-> & ? & ?).
@@ -164,7 +163,10 @@ Proof.
   - (* EServerClose *)
     constructor; fin.
     all: try solve [destruct fl; fin].
-    intros x E. destruct (Icause x E) as (A & B & C). repeat split; intros; try tauto; try discriminate.
+    intros x E. destruct (Icause x E) as (A & B). repeat split; intros; try tauto; try discriminate.  - (* EBlockDest *)
+    constructor; fin.
+    all: try solve [destruct fl; fin].
+    all: try (intros x E; destruct (Icause x E) as (A & B); repeat split; intros; try tauto; try discriminate).
 Qed.
 
 Lemma inv_step_en c s l : QInv c s -> QInv c (step_en c s l).
@@ -205,7 +207,7 @@ Proof. destruct n; [congruence|reflexivity]. Qed.
 Theorem mu_decreases c s l : QInv c s -> enabled c s l = true -> mu c (step c s l) < mu c s.
 Proof.
   intros I En.
-  destruct s as [ca se ha rg rc sc cx cn cl ns nw nd fl pp rs bu ra].
+  destruct s as [ca se ha rg rc sc cx cn cl ns nw nd fl pp rs bu ra bk].
   pose proof (i_sends c _ I) as Isends. pose proof (i_start c _ I) as Istart.
   pose proof (i_reg c _ I) as Ireg. pose proof (i_chan_done c _ I) as Ichandone.
   unfold mu. simpl in *.
@@ -223,7 +225,7 @@ Proof.
   intros F L. apply Nat.ltb_lt in L.
   destruct (q_closed s) eqn:Cl.
   - exists (ESendErr CClosed). split; [reflexivity|]. simpl. unfold cause_ok. rewrite F, L, Cl. reflexivity.
-  - destruct (qc_blocked c) eqn:B.
+  - destruct (q_blocked s) eqn:B.
     + exists (ESendErr CBlocked). split; [reflexivity|]. simpl. unfold cause_ok. rewrite F, L, Cl, B. reflexivity.
     + destruct (no_budget c s) eqn:NB.
       * exists (ESendErr CRate). split; [reflexivity|]. simpl. unfold cause_ok. rewrite F, L, Cl, B.
@@ -337,7 +339,7 @@ Theorem result_class c s r :
   | RCtx => q_ctx s = true                                         (* the caller's context is done *)
   | RTimeout => q_sends s = qc_tries c /\ q_writes s = qc_tries c /\ q_delays s = qc_tries c /\ q_fail s = None
                                                                    (* every send went out; the delay after the last one elapsed *)
-  | RSendErr x => q_fail s = Some x /\ (x = CClosed -> q_closed s = true) /\ (x = CBlocked -> qc_blocked c = true)
+  | RSendErr x => q_fail s = Some x /\ (x = CClosed -> q_closed s = true) /\ (x = CBlocked -> q_blocked s = true)
   end.
 Proof.
   intros R E. pose proof (inv_reachable c s R) as I. destruct r.
@@ -345,7 +347,7 @@ Proof.
   - apply (i_rctx c s I E).
   - destruct (i_timeout c s I (or_intror E)) as (A & B & C). pose proof (i_writes c s I) as W.
     rewrite C in W. repeat split; try assumption; lia.
-  - pose proof (i_senderr c s I c0 (or_intror E)) as F. destruct (i_cause c s I c0 F) as (A & B & _).
+  - pose proof (i_senderr c s I c0 (or_intror E)) as F. destruct (i_cause c s I c0 F) as (A & B).
     repeat split; assumption.
 Qed.
 
@@ -362,7 +364,7 @@ Lemma result_stable_step c s l r : q_result s = Some r -> QInv c s -> q_result (
 Proof.
   intros E I. unfold step_en. destruct (enabled c s l) eqn:En; [|assumption].
   pose proof (i_result c s I) as [_ B]. unfold pre_select in B.
-  destruct s as [ca se ha rg rc sc cx cn cl ns nw nd fl pp rs bu ra]. simpl in *.
+  destruct s as [ca se ha rg rc sc cx cn cl ns nw nd fl pp rs bu ra bk]. simpl in *.
   destruct l; simpl in *; try assumption; boolhyps; pcs; try assumption;
     try (assert (X : rs = None) by (apply B; auto); congruence).
 Qed.
@@ -460,10 +462,10 @@ Theorem closed_query_fails c b0 ls :
   (forall r, q_result s = Some r -> r = RSendErr CClosed \/ (r = RCtx /\ q_ctx s = true)).
 Proof.
   intros T s. subst s. unfold run.
-  assert (CInv (q_init true b0)) as I0 by (constructor; simpl; try reflexivity; intros; discriminate).
+  assert (CInv (q_init true b0 (qc_blocked c))) as I0 by (constructor; simpl; try reflexivity; intros; discriminate).
   destruct (cinv_exec c ls _ I0) as [Cl W P F]. split; [exact W|].
   intros r E.
-  assert (reachable c (exec c (q_init true b0) ls)) as R by (exists true, b0, ls; reflexivity).
+  assert (reachable c (exec c (q_init true b0 (qc_blocked c)) ls)) as R by (exists true, b0, ls; reflexivity).
   pose proof (result_class c _ r R E) as K.
   destruct r.
   - destruct K as [K _]. congruence.
@@ -515,7 +517,7 @@ Proof.
     destruct (rated_now c s) eqn:R; simpl in *; constructor; simpl; try lia; try assumption.
     intros X. specialize (Sm X). rewrite X in E. simpl in E.
     repeat (apply andb_prop in E; destruct E as [E ?]).
-    destruct (q_closed s); [discriminate|]. destruct (qc_blocked c); [discriminate|].
+    destruct (q_closed s); [discriminate|]. destruct (q_blocked s); [discriminate|].
     destruct (q_budget s); [discriminate|]. simpl. lia.
 Qed.
 
@@ -531,7 +533,7 @@ Theorem query_budget c c0 b0 ls :
   (forall x, (enabled c s ESendOk = true \/ enabled c s (ESendErr x) = true) -> q_fail s = None /\ q_writes s = q_sends s).
 Proof.
   intros s. subst s.
-  assert (BInv c b0 (q_init c0 b0)) as I0 by (constructor; simpl; intros; lia).
+  assert (BInv c b0 (q_init c0 b0 (qc_blocked c))) as I0 by (constructor; simpl; intros; lia).
   destruct (binv_exec c b0 ls _ I0) as [Sm Le]. fold (run c c0 b0 ls) in *.
   assert (reachable c (run c c0 b0 ls)) as R by (exists c0, b0, ls; reflexivity).
   destruct (sends_bound c _ R) as [W S1].
@@ -561,7 +563,7 @@ Proof.
   - simpl in E. unfold no_budget, rated_now in E. rewrite W, R0, X, B in E. simpl in E.
     rewrite !andb_false_r in E. discriminate.
   - simpl in E. unfold cause_ok, no_budget, rated_now in E. rewrite W, R0, X, B in E. simpl in E.
-    destruct (q_closed s), (qc_blocked c), c0; simpl in E; rewrite ?andb_false_r in E; try discriminate;
+    destruct (q_closed s), (q_blocked s), c0; simpl in E; rewrite ?andb_false_r in E; try discriminate;
       constructor; simpl; trivial; intros x Hx; injection Hx as <-; tauto.
 Qed.
 
@@ -574,17 +576,17 @@ Theorem query_no_budget_fails c c0 ls :
   let s := run c c0 0 ls in
   q_writes s = 0 /\ q_rated s = 0 /\
   (forall r, q_result s = Some r ->
-     (exists x, r = RSendErr x /\ (x = CRate \/ (x = CClosed /\ q_closed s = true) \/ (x = CBlocked /\ qc_blocked c = true))) \/
+     (exists x, r = RSendErr x /\ (x = CRate \/ (x = CClosed /\ q_closed s = true) \/ (x = CBlocked /\ q_blocked s = true))) \/
      (r = RCtx /\ q_ctx s = true) \/ r = RReply).
 Proof.
   intros T X R0 s. subst s. unfold run.
-  assert (NInv c (q_init c0 0)) as I0 by (constructor; simpl; try reflexivity; trivial; intros; discriminate).
+  assert (NInv c (q_init c0 0 (qc_blocked c))) as I0 by (constructor; simpl; try reflexivity; trivial; intros; discriminate).
   destruct (ninv_exec c ls X R0 _ I0) as [B W _ F].
-  assert (BInv c 0 (q_init c0 0)) as J0 by (constructor; simpl; intros; lia).
+  assert (BInv c 0 (q_init c0 0 (qc_blocked c))) as J0 by (constructor; simpl; intros; lia).
   destruct (binv_exec c 0 ls _ J0) as [_ Le].
   split; [exact W|]. split; [lia|].
   intros r E.
-  assert (reachable c (exec c (q_init c0 0) ls)) as R by (exists c0, 0, ls; reflexivity).
+  assert (reachable c (exec c (q_init c0 0 (qc_blocked c)) ls)) as R by (exists c0, 0, ls; reflexivity).
   pose proof (result_class c _ r R E) as K.
   destruct r.
   - right; right; reflexivity.
@@ -594,3 +596,46 @@ Proof.
     destruct (F _ K) as [-> | [-> | ->]]; [left; reflexivity|right; left; split; [reflexivity|apply K1; reflexivity]|
                                        right; right; split; [reflexivity|apply K2; reflexivity]].
 Qed.
+
+(* ------------------------------------------------------------------ C19: every send re-checks the blocklist *)
+(* a datagram leaves only if, at that very send, the server is open and the destination is not blocked *)
+Theorem send_rechecks c s : enabled c s ESendOk = true -> q_closed s = false /\ q_blocked s = false.
+Proof.
+  simpl. intros E. repeat (apply andb_prop in E; destruct E as [E ?]).
+  split; apply negb_true_iff; assumption.
+Qed.
+
+Theorem send_rechecks_short c s : enabled c s (ESendErr CShort) = true -> q_closed s = false /\ q_blocked s = false.
+Proof.
+  simpl. unfold cause_ok. intros E. apply andb_prop in E. destruct E as [_ E].
+  destruct (q_closed s); [discriminate|]. destruct (q_blocked s); [discriminate|]. split; reflexivity.
+Qed.
+
+(* a send attempted on an open server while the destination is blocked fails with the blocklist error *)
+Theorem blocked_send_error c s x :
+  q_closed s = false -> q_blocked s = true -> enabled c s (ESendErr x) = true -> x = CBlocked.
+Proof.
+  simpl. unfold cause_ok. intros Cl B E. rewrite Cl, B in E. apply andb_prop in E. destruct E as [_ E].
+  destruct x; simpl in E; try discriminate. reflexivity.
+Qed.
+
+(* once the destination is on the blocklist -- whenever that happens: before the query, between two sends --
+   no further datagram goes to it, on any schedule *)
+Lemma blocked_step c s l : q_blocked s = true -> q_blocked (step_en c s l) = true /\ q_writes (step_en c s l) = q_writes s.
+Proof.
+  intros B. unfold step_en. destruct (enabled c s l) eqn:E; [|split; [assumption|reflexivity]].
+  destruct l; simpl; try (split; [assumption|reflexivity]).
+  - destruct (q_senderr_chan s); simpl; split; try assumption; reflexivity.
+  - simpl in E. rewrite B in E. rewrite !andb_false_r in E. simpl in E. rewrite ?andb_false_r in E. discriminate.
+  - simpl in E. unfold cause_ok in E. rewrite B in E. apply andb_prop in E. destruct E as [_ E].
+    destruct (q_closed s); destruct c0; try discriminate; simpl; split; try assumption; reflexivity.
+  - split; reflexivity.
+Qed.
+
+Theorem blocked_no_write c ls : forall s, q_blocked s = true ->
+  q_blocked (exec c s ls) = true /\ q_writes (exec c s ls) = q_writes s.
+Proof.
+  induction ls as [|l ls IH]; intros s B; simpl; [split; [assumption|reflexivity]|].
+  destruct (blocked_step c s l B) as [A W]. destruct (IH _ A) as [C D]. split; [assumption|congruence].
+Qed.
+
